@@ -39,6 +39,9 @@ class LambdaTokenTranslator(AbstractTranslator):
             else:
                 if expression:
                     condition_value = expression
+                else:
+                    # a text criterion without a live wildcard may still escape one: "a~*" is the text a*
+                    condition_value = re.sub(r'~([?*~])', r'\1', literal)
         else:
             condition_value = expression
 
